@@ -183,6 +183,33 @@ def generate(rng, tier):
             ops.append([t + off + rng.choice([0, 100_000]), "write", min(NPAGES - 1, p0 + rng.randrange(1, ra + 1))])
         t += off
         lastw = min(NPAGES - 1, p0 + i)
+    if not neigh and rng.random() < 0.3:
+        # the eviction stall: the cache is full and its LRU victim dirty, so a call that misses waits
+        # for the victim's write-back (wl) before it inserts its page; meanwhile other calls on the SAME
+        # page run — a read that loads it clean inside the stall (needs rl < wl), a second write, a read
+        # that is still on the disk when the stalled call resumes.  A write_page that returns must
+        # leave its page dirty whatever happened to the page during the stall.
+        if rng.random() < 0.7:
+            wl = rl + rng.choice([1, 2, 3])
+        for _ in range(rng.choice([1, 1, 2])):
+            base = rng.randrange(NPAGES)
+            for j in range(cap):                                  # fill with dirty pages, oldest first
+                ops.append([t, "write", (base + 1 + j) % NPAGES])
+                t += rng.choice([wl, 2 * wl, 10]) * MS
+            if rng.random() < 0.3:
+                ops.append([t, "read", (base + 1) % NPAGES])      # … or make the victim another page
+                t += rng.choice([1, 10]) * MS
+            first = "write" if rng.random() < 0.75 else "read"
+            ops.append([t, first, base])
+            for _ in range(rng.choice([1, 1, 2])):
+                e = rng.choice([0, 100_000, 100_000, MS // 2, (wl - rl) * MS - 100_000, (wl - rl) * MS, wl * MS - 100_000, wl * MS])
+                ops.append([t + max(0, e), "read" if (first == "write" and rng.random() < 0.75) else "write", base])
+            t += (wl + rl) * MS + rng.choice([0, MS, 10 * MS])
+            if rng.random() < 0.5:
+                ops.append([t, "flush"])
+                t += (cap + 1) * wl * MS
+        ops.sort(key=lambda o: o[0])
+        n = rng.choice([0, 2, 4, 6])
     for _ in range(n):
         if style < 0.25:
             t += rng.choice([20, 25, 40]) * MS                      # sequential: nothing overlaps
@@ -242,6 +269,7 @@ THEOREMS = [
     "HappyModel.C16.Page.pagecache_dirty_never_dropped_quiescent",
     "HappyModel.C16.Page.pagecache_dirtied_eq_writtenback_plus_dirty",
     "HappyModel.C16.Page.pagecache_evictions_account",
+    "HappyModel.C16.Page.pagecache_write_leaves_page_dirty",
     "HappyModel.C16.Page.pagecache_capacity_exceeded_current",
     "HappyModel.C16.Page.pagecache_size_le_capacity_fails_current",
     "HappyModel.C16.Page.pagecache_dirty_dropped_current",
@@ -249,7 +277,9 @@ THEOREMS = [
 ]
 RULE = ("family pagecache: real Simulation, PageCache(capacity_pages 1–3, readahead_pages 0–2, disk read/write latency 1–5 ms), "
         "3–17 read_page/write_page/flush calls on page ids 0–5 (hot-page bias) issued by a client entity sequentially, at 0–6 ms gaps, "
-        "or at ties / exactly one latency apart (several calls in flight), usually followed by a flush at quiescence; "
+        "or at ties / exactly one latency apart (several calls in flight), usually followed by a flush at quiescence; 30 % of the cases open with "
+        "eviction-stall rounds (the cache filled with dirty pages, a write_page / read_page that misses and waits for the dirty victim's write-back "
+        "while reads and writes of the SAME page start 0 – wl later, write latency > read latency so that a read loads the page inside the stall); "
         "non-trivial: ≥1 eviction or write-back, or calls that overlapped")
 TRUSTED = [
     "pagecache: hv/props/c16_page.py client entity wraps every PageCache generator (read_page / write_page / flush) and records one schedule line per segment; the schedule of the real run is an input of the model",
@@ -257,12 +287,13 @@ TRUSTED = [
 ]
 ASSUMPTIONS = [
     "pagecache: PageCache carries no page contents, so 'write-back data is never discarded' is judged through the public counters: dirty_writebacks + dirty_pages may only grow in the segment in which a write_page returns (by one) and may only fall by the one victim a read/write call holds while its write-back latency is served (HappyModel/C16/PageSpec.lean); a disk write is taken to store the page as it is when the write latency has elapsed",
+    "pagecache: per page, the write-back law is judged as: a returning write_page(p) may leave dirty_writebacks + dirty_pages unchanged only if another write_page(p) has returned since dirty_pages was last observed to be 0 (only then can p be dirty already); otherwise the page the call wrote was not left dirty and will never be written back (signature pagecache/writeback/dirty-page-dropped); the model-level statement is pagecache_write_leaves_page_dirty",
     "pagecache: the LRU clause ('eviction removes the entry the policy designates') is judged through hits and misses only while calls have not overlapped and read-ahead is off (a call is a hit iff its page is among the capacity most recently accessed distinct pages); with overlaps or read-ahead the LRU order is compared with the model only",
     "pagecache: a flush is judged in full (returns the number of pages dirty at its start, leaves none dirty) only when no other segment ran between its first and last segment",
     "pagecache: latencies are whole milliseconds passed as float seconds (conversion to nanoseconds checked exact in run_impl); nothing in PageCache depends on the clock, segments carry no time",
 ]
 HYPOTHESES = [
-    "pagecache theorems: capacity_pages ≥ 1 (the constructor rejects less); repaired variant (fixes/C16-pagecache-capacity.diff); schedules are arbitrary lists of start/resume actions (a resume of a call that is not suspended is a no-op)",
+    "pagecache theorems: capacity_pages ≥ 1 (the constructor rejects less); repaired variant (fixes/C16-pagecache-capacity.diff); schedules are arbitrary lists of start/resume actions (a resume of a call that is not suspended is a no-op); pagecache_write_leaves_page_dirty holds for both variants, any capacity and any state",
 ]
 PARTIAL = {
     "HappyModel.C16.Page.pagecache_dirtied_eq_writtenback_plus_dirty": "proves the Spec's write-back law in its global form (W = dirty_writebacks + dirty_pages + victims in write-back, at most one per suspended call) and pagecache_evictions_account proves the evictions clause per segment; NOT proved as 'the Spec judge accepts every model transcript': the judge's per-call debt bookkeeping, its flush clause (an undisturbed flush returns the number of pages dirty at its start and leaves none dirty) and its LRU hit/miss clause (stack distance, non-overlapping calls, read-ahead off) are checked on implementation transcripts only",
